@@ -73,3 +73,16 @@ func lastNode(nn []ast.Vertex) ast.Vertex {
 	}
 	return nn[len(nn)-1]
 }
+
+// intOffset reports whether PHP reads the digits of an interpolated offset ("$a[7]", "$a[-7]") as an
+// integer rather than as a string key: "0" or a decimal number without leading zeros. "012", "00" and
+// "-0" are string keys that keep their text. The caller has already checked that the digits fit an int.
+func intOffset(digits []byte, negative bool) bool {
+	if len(digits) > 1 && digits[0] == '0' {
+		return false
+	}
+	if negative && len(digits) == 1 && digits[0] == '0' {
+		return false
+	}
+	return true
+}
